@@ -168,7 +168,7 @@ Proof.
   intros t p e (H1 & H2 & H3 & H4 & H5 & H6 & H7). unfold spec_timeout, applicable, sec.
   destruct (N.eqb p 6); [|destruct (N.eqb p 1 || N.eqb p 58); [|destruct (N.eqb p 17)]]; simpl; try (apply Z.min_glb; lia).
   destruct (rst_seen e); destruct ((e_dsr e && fins_seen_dsr e) || fins_seen e);
-    destruct (established e || e_dsr e); destruct (e_rstts e); simpl;
+    destruct (established e || e_dsr e); destruct (rst_ts_set e); simpl;
     repeat apply Z.min_glb; lia.
 Qed.
 
